@@ -178,7 +178,9 @@ Record inv (key : N) (w : world) : Prop := {
   inv_flow : forall k n f, In (Seal k n (PFlow f)) (w_issued w) -> In f (w_flows w);
   inv_sid : forall f, In f (w_flows w) -> 0 < f_sid f <= w_ctr w;
   inv_sid_nodup : NoDup (map f_sid (w_flows w));
-  inv_nonce_nodup : NoDup (map nonce_of (w_issued w))
+  inv_nonce_nodup : NoDup (map nonce_of (w_issued w));
+  (* a flow value carries the nonce of the start event that drew its id: cookie = id, state = id + 1 *)
+  inv_pair : forall k n f, In (Seal k n (PFlow f)) (w_issued w) -> n = f_sid f \/ n = f_sid f + 1
 }.
 
 Lemma inv_init key : inv key init_world.
@@ -188,7 +190,8 @@ Lemma inv_push_session key w s :
   inv key w ->
   inv key {| w_ctr := w_ctr w + 1; w_flows := w_flows w; w_issued := Seal key (w_ctr w + 1) (PSession s) :: w_issued w |}.
 Proof.
-  intros [Hk Hf Hs Hn Hnn]. constructor; cbn [w_ctr w_flows w_issued].
+  intros [Hk Hf Hs Hn Hnn Hp]. constructor; cbn [w_ctr w_flows w_issued].
+  6: { intros k n f [E|H]; [inversion E | eapply Hp; exact H]. }
   - intros k n p [E|H]; [inversion E; subst; split; [reflexivity | lia]|].
     destruct (Hk _ _ _ H). split; [assumption | lia].
   - intros k n f [E|H]; [inversion E | eapply Hf; exact H].
@@ -201,7 +204,8 @@ Qed.
 Lemma inv_step canon strict key w e : inv key w -> inv key (fst (step canon strict key w e)).
 Proof.
   intros I. destruct e as [u|s|r]; cbn [step].
-  - destruct I as [Hk Hf Hs Hn Hnn]. cbn [fst oauth_start st_flow st_cookie st_state]. constructor; cbn [w_ctr w_flows w_issued].
+  - destruct I as [Hk Hf Hs Hn Hnn Hp]. cbn [fst oauth_start st_flow st_cookie st_state]. constructor; cbn [w_ctr w_flows w_issued].
+    6: { intros k n f [E|[E|H]]; [inversion E; subst; cbn; left; reflexivity | inversion E; subst; cbn; right; lia | eapply Hp; exact H]. }
     + intros k n p [E|[E|H]]; [inversion E; subst; split; [reflexivity | lia] | inversion E; subst; split; [reflexivity | lia] |].
       destruct (Hk _ _ _ H). split; [assumption | lia].
     + intros k n f [E|[E|H]]; [inversion E; left; reflexivity | inversion E; left; reflexivity | right; eapply Hf; exact H].
@@ -318,6 +322,28 @@ Proof.
   fold w in Hi1, Hi2, Hown.
   destruct Hown as [[f [Hin [-> [-> ->]]]]|[Hf _]]; [|discriminate].
   exists v1, n1, f, v2, n2, email. repeat split; auto; destruct (Hcan H) as [? [? ?]]; assumption.
+Qed.
+
+(* ... and the two values come from ONE OAuthStart run — the one that drew f's id: in the model the
+   CSRF cookie of a start carries nonce = id and its state nonce = id + 1, and ids are fresh.  This is
+   "the browser's own flow": never the state of one start with the cookie of another. *)
+Lemma state_and_cookie_from_one_start canon key evs r s loc :
+  admissible canon true key init_world (evs ++ [ECallback r]) = true ->
+  oauth_callback canon true key r = CbOk s loc ->
+  exists f v1 n1 v2 n2,
+    In f (w_flows (run canon true key init_world evs)) /\
+    cb_state r = WEnc v1 (Seal key n1 (PFlow f)) /\ cb_cookie r = Some (WEnc v2 (Seal key n2 (PFlow f))) /\
+    (n1 = f_sid f \/ n1 = f_sid f + 1) /\ (n2 = f_sid f \/ n2 = f_sid f + 1) /\
+    (canon = true -> n1 <> n2).
+Proof.
+  intros Ha E.
+  destruct (session_only_for_own_flow _ _ _ _ _ _ Ha E)
+    as (v1 & n1 & f & v2 & n2 & email & Hin & Hs & Hc & Hi1 & Hi2 & _ & Hcan & _).
+  assert (I : inv key (run canon true key init_world evs)) by (apply inv_run, inv_init).
+  exists f, v1, n1, v2, n2. repeat split; auto.
+  - eapply (inv_pair _ _ I); exact Hi1.
+  - eapply (inv_pair _ _ I); exact Hi2.
+  - intros H. destruct (Hcan H) as [_ [_ Hn]]. exact Hn.
 Qed.
 
 (* the full statement (always a started flow) is false of the faithful model: two sealed sessions,
